@@ -440,10 +440,76 @@ theorem extendLoop_ok_last {known items us : List String}
   | none => exact hk
   | some l => exact this l rfl
 
+/-! ### index / slice assignment: assignment on a copy, then every item is added again -/
+
+theorem mem_setEach_of {α} {xs vs : List α} {is : List Nat} {x : α}
+    (hx : x ∈ setEach xs is vs) : x ∈ xs ∨ x ∈ vs := by
+  induction is generalizing xs vs with
+  | nil => simp only [setEach] at hx; exact .inl hx
+  | cons i is ih =>
+    cases vs with
+    | nil => simp only [setEach] at hx; exact .inl hx
+    | cons v vs =>
+      simp only [setEach] at hx
+      rcases ih hx with h | h
+      · rcases List.mem_or_eq_of_mem_set h with h | h
+        · exact .inl h
+        · exact .inr (by simp [h])
+      · exact .inr (by simp [h])
+
+/-- whatever the slice, the list after `xs[a:b:st] = vs` only holds items of `xs` and of `vs` -/
+theorem mem_sliceAssign_of {α} {xs vs r : List α} {a b st : Option Int} {x : α}
+    (hr : sliceAssign xs a b st vs = some r) (hx : x ∈ r) : x ∈ xs ∨ x ∈ vs := by
+  unfold sliceAssign at hr
+  simp only at hr
+  split at hr
+  · cases hr; exact mem_splice_of hx
+  · split at hr
+    · cases hr
+    · split at hr
+      · cases hr; exact mem_setEach_of hx
+      · cases hr
+
+/-- adding items again through the filter: duplicates and known URLs are dropped, so the result is
+    `UOK` whatever was assigned (as long as every item is a good URL) -/
+theorem readd_ok {known acc xs : List String} (hk : UOK isUrl known acc)
+    (hg : ∀ x ∈ xs, Good isUrl x) : UOK isUrl known (readd known acc xs) := by
+  induction xs generalizing acc with
+  | nil => simpa [readd] using hk
+  | cons x xs ih =>
+    have hg' : ∀ y ∈ xs, Good isUrl y := fun y hy => hg y (by simp [hy])
+    unfold readd
+    split
+    · exact ih hk hg'
+    · rename_i hn
+      have hn' : x ∉ acc ∧ x ∉ known := by simpa [not_or] using hn
+      apply ih _ hg'
+      have := UOK_splice_singleton (k := acc.length) hk (hg x (by simp)) hn'.1 hn'.2
+      rwa [splice_length_self] at this
+
+/-- a list that is `UOK` already is added again unchanged (`l[:] = l`, `l[i] = l[i]`) -/
+theorem readd_id {known acc xs : List String} (hk : UOK isUrl known (acc ++ xs)) :
+    readd known acc xs = acc ++ xs := by
+  induction xs generalizing acc with
+  | nil => simp [readd]
+  | cons x xs ih =>
+    have h2 : x ∉ known := hk.2.2 x (by simp)
+    have h1 : x ∉ acc := by
+      have := hk.1
+      rw [List.nodup_append] at this
+      intro hm
+      exact this.2.2 x hm x (by simp) rfl
+    unfold readd
+    rw [if_neg (by simp [h1, h2])]
+    have hk' : UOK isUrl known ((acc ++ [x]) ++ xs) := by simpa using hk
+    simpa using ih hk'
+
 /-! ### `urlsOp` -/
 
+/-- EVERY in-place operation on a URL list — index and slice assignment included since
+    /repo e62ce6d — hands a duplicate-free list of good URLs to the callback -/
 theorem urlsOp_ok {known items r : List String} {op : UOp}
-    {out : Outcome} (hk : UOK isUrl known items) (hop : op.isSet = false)
+    {out : Outcome} (hk : UOK isUrl known items)
     (hr : urlsOp isUrl known items op = (some r, out)) : UOK isUrl known r := by
   have hdel : ∀ k, UOK isUrl known (splice items k (k + 1) []) := fun k =>
     UOK_sublist hk (splice_nil_sublist items (Nat.le_succ k))
@@ -492,7 +558,32 @@ theorem urlsOp_ok {known items r : List String} {op : UOp}
     split at hr
     · cases hr
     · rename_i r' hf; cases hr; exact urlsReplace_ok hf
-  | setItem i u => cases hop
-  | setSlice a b us => cases hop
+  | setItem i u =>
+    simp only [urlsOp] at hr
+    split at hr
+    · cases hr
+    · rename_i c hc
+      split at hr
+      · cases hr
+      · cases hr
+        apply readd_ok (UOK_nil known)
+        intro x hx
+        rcases List.mem_or_eq_of_mem_set hx with h | h
+        · exact hk.2.1 x h
+        · subst h; exact coerce_ok_good hc
+  | setSlice a b st us =>
+    simp only [urlsOp] at hr
+    split at hr
+    · cases hr
+    · rename_i cs hc
+      split at hr
+      · cases hr
+      · rename_i items' hs
+        cases hr
+        apply readd_ok (UOK_nil known)
+        intro x hx
+        rcases mem_sliceAssign_of hs hx with h | h
+        · exact hk.2.1 x h
+        · exact coerceAll_ok_good hc x h
 
 end Torf.Lists
